@@ -1,5 +1,6 @@
 """C14 — CellML 1.0 / 1.1 documents are faithfully transformed in permissive mode."""
 import random, sys, tempfile, shutil, subprocess, difflib, itertools
+import xml.etree.ElementTree as ET
 from vlib.common import *
 sys.path.insert(0, os.path.join(ROOT, 'pygen'))
 import docs as D
@@ -90,7 +91,8 @@ def run(chk, replay=None):
                     if mu:
                         text = text.replace('"%s"' % mu.group(1), '"%s"' % rng.choice(['meter_per_ms', 'liter_x', 'meters', 'centimeter', 'literal']))
                 respell = rng.random() < 0.15
-                t1 = L.to1x(text, ver, rng, respell_math=respell)
+                math_cmeta = rng.random() < 0.3
+                t1 = L.to1x(text, ver, rng, respell_math=respell, math_cmeta=math_cmeta)
             o2, o1, os1 = real(text, None), real(t1, 'permissive'), real(t1, None)
             if o1 is None or o2 is None or os1 is None:
                 oracle.append(('the library crashed', text, t1, ver)); continue
@@ -101,6 +103,23 @@ def run(chk, replay=None):
             strong = [l for l in i1.split('\n') if l.strip() and not l.startswith('2 ')]
             if strong:
                 oracle.append(('the permissive parser reports more than messages: ' + strong[0][:200], text, t1, ver)); continue
+            # every stored math string is a self-contained XML document (prefixes used by the math element itself included)
+            bad_math = None
+            for mh in re.findall(r'math #([0-9a-f]+)', d1):
+                ms = bytes.fromhex(mh).decode('utf-8', 'replace')
+                try:
+                    ET.fromstring('<r>' + ms + '</r>')
+                except ET.ParseError as e:
+                    bad_math = (ms, str(e)); break
+            if bad_math:
+                oracle.append(('a math string of the transformed model is not a self-contained XML document (%s): %s' % (bad_math[1], bad_math[0][:300]), text, t1, ver)); continue
+            if re.search(r'<math [^>]*cmeta:id="', t1):
+                # the 1.x document carries cmeta:id on math elements where the 2.0 original has id: compared modulo that spelling
+                def respell_id(m):
+                    ms = bytes.fromhex(m.group(1)).decode('utf-8', 'replace')
+                    ms = ms.replace(' xmlns:cmeta="http://www.cellml.org/metadata/1.0#"', '').replace(' cmeta:id="', ' id="')
+                    return 'math #' + ms.encode().hex()
+                d1 = re.sub(r'math #([0-9a-f]+)', respell_id, d1)
             if d1 != d2:
                 hx_ = lambda t_: t_.encode().hex()
                 def respelled_in_math(dd):
